@@ -36,14 +36,18 @@ CMR_ERROR CMRregularitySearchOnesum(CMR* cmr, DecompositionTask* task, Decomposi
   CMR_CALL( CMRdecomposeBlocks(cmr, (CMR_MATRIX*) task->node->matrix, sizeof(char), sizeof(char), &numComponents, &components,
     NULL, NULL, NULL, NULL) );
 
-  if (numComponents == 1)
+  if (numComponents <= 1)
   {
     CMRdbgMsg(6, "Matrix is 2-connected.\n", numComponents);
 
-    CMR_CALL( CMRchrmatFree(cmr, (CMR_CHRMAT**) &components[0].matrix) );
-    CMR_CALL( CMRchrmatFree(cmr, (CMR_CHRMAT**) &components[0].transpose) );
-    CMR_CALL( CMRfreeBlockArray(cmr, &components[0].rowsToOriginal) );
-    CMR_CALL( CMRfreeBlockArray(cmr, &components[0].columnsToOriginal) );
+    /* An empty matrix has no component at all; it is treated like a 2-connected one. */
+    if (numComponents == 1)
+    {
+      CMR_CALL( CMRchrmatFree(cmr, (CMR_CHRMAT**) &components[0].matrix) );
+      CMR_CALL( CMRchrmatFree(cmr, (CMR_CHRMAT**) &components[0].transpose) );
+      CMR_CALL( CMRfreeBlockArray(cmr, &components[0].rowsToOriginal) );
+      CMR_CALL( CMRfreeBlockArray(cmr, &components[0].columnsToOriginal) );
+    }
 
     /* Just mark it as 2-connected and add it back to the list of unprocessed tasks. */
     task->node->testedTwoConnected = true;
